@@ -380,3 +380,58 @@ def judge_cli(case, o):
         elif marked[0] not in case["mark"]:
             bad.append(("lineno", "marked %r, the fault is on %r" % (marked[0], case["mark"][0])))
     return bad
+
+
+# --------------------------------------------------------------------------- C11: errors that point at a command as a whole
+def cmdline_cases():
+    """run-time errors raised for a command as a whole (bad thresholds, mismatched lists, empty inputs, cycles, mixed shapes):
+    the line they carry is the line on which that command starts, however many lines its arguments take"""
+    pre = ["# header comment", "R1 = EEMSRead(InFileName = input.csv, InFieldName = a)", "", "R2 = EEMSRead(", "    InFileName = input.csv,", "    InFieldName = b", ")"]
+    bodies = {
+        "equal-thresholds": (["F = CvtToFuzzy(", "    InFieldName = R1,", "    TrueThreshold = 3,", "    FalseThreshold = 3,", "    Metadata = [note: x]", ")"], "InvalidThresholds"),
+        "mismatched-lists": (["N = NormalizeCat(", "    InFieldName = R1,", "    RawValues = [1, 2, 3],", "    NormalValues = [0, 1],", "    DefaultNormalValue = 0", ")"], None),
+        "empty-inputs": (["S = Sum(", "    InFieldNames = [],", "    Metadata = [note: x]", ")"], "EmptyInputs"),
+        "mismatched-weights": (["W = WeightedSum(", "    InFieldNames = [R1, R2],", "    Weights = [1, 2, 3]", ")"], None),
+    }
+    cases = []
+    for label, (body, exc) in bodies.items():
+        lines = pre + [""] + body + ["", "OUT = EEMSWrite(OutFileName = out.csv, OutFieldNames = [R1])"]
+        start = len(pre) + 2
+        cases.append({"files": {"input.csv": CSV}, "source": "\n".join(lines) + "\n", "label": "command-line:" + label, "cmd_lines": [start], "exc": exc,
+                      "arg_lines": list(range(start, start + len(body)))})
+    # a cycle: the error names a command on the cycle
+    cyc = ["A = Copy(", "    InFieldName = B", ")", "", "B = Copy(", "    InFieldName = A,", "    Metadata = [note: x]", ")"]
+    cases.append({"files": {"input.csv": CSV}, "source": "\n".join(pre + [""] + cyc) + "\n", "label": "command-line:cycle", "cmd_lines": [len(pre) + 2, len(pre) + 6],
+                  "exc": "RecursiveModelStructure", "arg_lines": []})
+    # mixed shapes need columns of different length: two files
+    mixed = ["Q1 = EEMSRead(InFileName = input.csv, InFieldName = a)", "Q2 = EEMSRead(InFileName = short.csv, InFieldName = a)", "", "D = AMinusB(", "    A = Q1,", "    B = Q2,",
+             "    Metadata = [note: x]", ")"]
+    cases.append({"files": {"input.csv": CSV, "short.csv": "a\n1\n2\n"}, "source": "\n".join(mixed) + "\n", "label": "command-line:mixed-shapes", "cmd_lines": [4],
+                  "exc": "MixedArrayShapes", "arg_lines": [5, 6, 7, 8]})
+    return cases + [dict(c, mode="cli", mark_lines=c["cmd_lines"]) for c in cases]
+
+
+def judge_cmdline(case, o):
+    if "harness_error" in o:
+        return [("harness-error", o["harness_error"][-300:])]
+    bad = []
+    if case.get("mode") == "cli":
+        err = o["stderr"].replace("\r", "")
+        marked = [l[4:] for l in err.split("\n") if l.startswith("--> ")]
+        src = case["source"].split("\n")
+        want = [src[i - 1] for i in case["mark_lines"]]
+        if marked and marked[0] not in want:
+            bad.append(("lineno", "the command-line tool marks %r; the failing command starts with %r" % (marked[0], want[0])))
+        return bad
+    e = o.get("exc")
+    if e is None:
+        return [("lineno", "the model was expected to fail (%s)" % case["label"])]
+    if case.get("exc") and e["cls"] != case["exc"]:
+        return []  # another error got there first: nothing to compare
+    if e.get("lineno") is None:
+        return []  # no line claimed is not a wrong line
+    if e["lineno"] not in case["cmd_lines"] and e["lineno"] not in case.get("arg_lines", []):
+        bad.append(("lineno", "%s carries line %r; the command starts on line %s" % (e["cls"], e["lineno"], case["cmd_lines"])))
+    elif e["lineno"] not in case["cmd_lines"] and case.get("exc") in ("InvalidThresholds", "EmptyInputs", "RecursiveModelStructure", "MixedArrayShapes"):
+        bad.append(("lineno", "%s is raised for the command as a whole but carries line %r (the command starts on line %s)" % (e["cls"], e["lineno"], case["cmd_lines"])))
+    return bad
